@@ -178,7 +178,7 @@ def _shard_worker(args):
 
 
 def write_replay(pid: str, sub: str, message: str, case: Any) -> Path:
-    d = VERIF / "replays" / pid
+    d = Path(os.environ.get("VERIF_REPLAY_DIR") or (VERIF / "replays")) / pid
     d.mkdir(parents=True, exist_ok=True)
     body = {"property": pid, "sub": sub, "message": message, "case": json.loads(canon(case))}
     digest = hashlib.sha1(canon({"sub": sub, "case": body["case"]}).encode()).hexdigest()[:16]
@@ -337,8 +337,10 @@ def main(argv: list[str]) -> int:
         "wall_s": round(wall, 2),
         "violations": 1 if violation else 0,
     }
-    edir = VERIF / "evidence"
-    edir.mkdir(exist_ok=True)
+    # VERIF_EVIDENCE_DIR is only set by the sensitivity tooling (mutants / seeded changes) so that runs against a
+    # deliberately broken scratch copy never overwrite the evidence of the real tree
+    edir = Path(os.environ.get("VERIF_EVIDENCE_DIR") or (VERIF / "evidence"))
+    edir.mkdir(parents=True, exist_ok=True)
     (edir / f"{pid}.json").write_text(json.dumps(evidence, indent=1, ensure_ascii=True, sort_keys=True) + "\n")
 
     if violation is not None:
